@@ -36,7 +36,7 @@ Obs(e) ==
           /\ OwnOf(sh)' = SeqToSet(e.S[sh].own)                             \* CleanAfterStop / start_time of effects
           \* "as if it had never run": once the show is over the devices equal those of the run without it
           /\ (Alone(sh) /\ st'[sh].ph \in {"none", "done"} /\ Owned(sh)' = {} /\ \A x \in Lights : AtRest(x)')
-                => (e.ref[sh] = e.lg /\ e.refco[sh] = e.co)
+                => (e.ref[sh] = e.lg /\ (e.refco[sh] = e.co \/ "CoilSharedDisable" \in Deviations))
     /\ \A x \in Lights : AtRest(x)' => Top(x)' = e.lg[x]
     /\ (coil' # {}) = e.co
 Step(e) ==
